@@ -14,6 +14,7 @@ package sqlidx
 
 import (
 	"fmt"
+	"regexp"
 	"sort"
 	"strconv"
 	"strings"
@@ -25,7 +26,7 @@ import (
 	"github.com/dolthub/dolt/go/zzverif/vsql"
 )
 
-const c24Rule = "schema p(id PK, v), c(id PK, pid FK->p.id ON DELETE {RESTRICT,CASCADE,SET NULL}, u, u2, x NOT NULL, y, UNIQUE(u) or UNIQUE(u,u2), CHECK in {x<y, x<=y, x+y<=6, x<>y}); base of 2-4 parents and 1-5 children, all values from domains of 4-7 values. [txn] 2-3 sessions (autocommit off); an adversarial prelude in 3 of 4 cases (same unique value inserted/updated under different PKs; parent deleted while a child is inserted; x and y of one row updated separately so the CHECK fails only in combination) followed by 4-14 drawn steps of {INSERT/UPDATE/DELETE on p or c, COMMIT, ROLLBACK, dolt_commit} interleaved over the sessions; after every COMMIT attempt: committed tables satisfy PK/UNIQUE/NOT NULL/CHECK/FK under the harness' evaluator (or the row is listed as a violation), and a refused COMMIT changed nothing; every dolt commit made is checked the same way AS OF its hash. [merge] the same edits applied on two branches, then dolt_merge / dolt_cherry_pick with force-commit: unlisted rows satisfy all constraints, every listed (row, type) is a real violation, a plain dolt_commit is refused while violations exist and --force keeps them listed in the commit. Non-trivial: [txn] a COMMIT was refused for constraint violations although every statement had succeeded in its own session; [merge] the merge produced at least one constraint violation while both branch heads were clean; distinct by statement list."
+const c24Rule = "schema p(id PK, v), c(id PK, pid FK->p.id ON DELETE {RESTRICT,CASCADE,SET NULL}, u, u2, x NOT NULL, y, UNIQUE(u) or UNIQUE(u,u2), CHECK in {x<y, x<=y, x+y<=6, x<>y}); base of 2-4 parents and 1-5 children, all values from domains of 4-7 values. [txn] 2-3 sessions (autocommit off); an adversarial prelude in 3 of 4 cases (same unique value inserted/updated under different PKs; parent deleted while a child is inserted; x and y of one row updated separately so the CHECK fails only in combination) followed by 4-14 drawn steps of {INSERT/UPDATE/DELETE on p or c, COMMIT, ROLLBACK, dolt_commit} interleaved over the sessions; after every COMMIT attempt: committed tables satisfy PK/UNIQUE/NOT NULL/CHECK/FK under the harness' evaluator (or the row is listed as a violation), and a refused COMMIT changed nothing; every dolt commit made is checked the same way AS OF its hash. [merge] the same edits applied on two branches; in 4 of 5 cases one branch first changes the constraints of c (DROP + ADD CONSTRAINT ck1 with another expression of the 10-expression grammar, ADD CONSTRAINT ck2, ADD UNIQUE KEY on (y) or (x,u2), MODIFY … NOT NULL) while the other branch inserts/updates rows that are legal under the base definition and illegal under the new one; then dolt_merge / dolt_cherry_pick in either direction with force-commit, evaluated against the constraint set the merge result's SHOW CREATE TABLE names (expression semantics from the harness' grammar): unlisted rows satisfy all constraints, every listed (row, type) is a real violation, a plain dolt_commit is refused while violations exist and --force keeps them listed in the commit. Non-trivial: [txn] a COMMIT was refused for constraint violations although every statement had succeeded in its own session; [merge] the merge produced at least one constraint violation while both branch heads were clean; distinct by statement list."
 
 type c24Schema struct {
 	fkAction string // RESTRICT, CASCADE, SET NULL
@@ -33,7 +34,159 @@ type c24Schema struct {
 	check    int    // 0: x<y 1: x<=y 2: x+y<=6 3: x<>y
 }
 
-var c24Checks = []string{"x < y", "x <= y", "x + y <= 6", "x <> y"}
+// CHECK grammar. The first four are the shapes of the base schema; the rest are used when a
+// branch redefines ck1 or adds ck2.
+var c24Checks = []string{"x < y", "x <= y", "x + y <= 6", "x <> y", "x <= 3", "y <= 4", "x + y <= 4", "x < 3", "y > 1", "x + 1 < y"}
+
+// c24EvalExpr evaluates expression i with SQL semantics: the row passes unless the expression is FALSE.
+func c24EvalExpr(i int, x, y string) bool {
+	xv, xerr := strconv.Atoi(x)
+	yv, yerr := strconv.Atoi(y)
+	usesX, usesY := true, true
+	switch i {
+	case 4, 7:
+		usesY = false
+	case 5, 8:
+		usesX = false
+	}
+	if (usesX && (x == vsql.Null || xerr != nil)) || (usesY && (y == vsql.Null || yerr != nil)) {
+		return true
+	}
+	switch i {
+	case 0:
+		return xv < yv
+	case 1:
+		return xv <= yv
+	case 2:
+		return xv+yv <= 6
+	case 3:
+		return xv != yv
+	case 4:
+		return xv <= 3
+	case 5:
+		return yv <= 4
+	case 6:
+		return xv+yv <= 4
+	case 7:
+		return xv < 3
+	case 8:
+		return yv > 1
+	default:
+		return xv+1 < yv
+	}
+}
+
+// c24Printed maps the text dolt prints for a CHECK expression in SHOW CREATE TABLE to the index
+// of the harness' own expression (filled once per test function by c24Calibrate).
+var c24Printed = map[string]int{}
+
+var c24ReCheck = regexp.MustCompile("^CONSTRAINT `([^`]+)` CHECK (.*)$")
+var c24ReUniq = regexp.MustCompile("^UNIQUE KEY `([^`]+)` \\((.*)\\)$")
+
+func c24Calibrate(t *testing.T, srv *vsql.Server, admin *vsql.Session) {
+	db := srv.NewDBName()
+	admin.MustExec(t, "CREATE DATABASE "+db)
+	defer admin.Exec("DROP DATABASE " + db)
+	s := srv.Session(t, "cal", db)
+	defer s.Close()
+	for i, e := range c24Checks {
+		s.MustExec(t, fmt.Sprintf("CREATE TABLE k%d (x INT, y INT, CONSTRAINT ck CHECK (%s))", i, e))
+		r := s.MustQuery(t, fmt.Sprintf("SHOW CREATE TABLE k%d", i))
+		found := false
+		for _, ln := range strings.Split(r.Data[0][1], "\n") {
+			ln = strings.TrimSuffix(strings.TrimSpace(ln), ",")
+			if m := c24ReCheck.FindStringSubmatch(ln); m != nil {
+				c24Printed[m[2]] = i
+				found = true
+			}
+		}
+		if !found {
+			t.Fatalf("harness: no CHECK line in %s", r.Data[0][1])
+		}
+	}
+	if len(c24Printed) != len(c24Checks) {
+		t.Fatalf("harness: printed CHECK expressions are not distinct: %v", c24Printed)
+	}
+}
+
+// c24Live is the constraint set of table c in one root, read back from SHOW CREATE TABLE
+// (names and structure from dolt, expression semantics from the harness' own grammar).
+type c24Live struct {
+	checks  map[string]int   // name -> index in c24Checks
+	uniques map[string][]int // name -> column positions in (id,pid,u,u2,x,y)
+	notNull [6]bool
+	hasFK   bool
+	raw     string
+}
+
+var c24Cols = []string{"id", "pid", "u", "u2", "x", "y"}
+
+func (c *c24State) live(s *vsql.Session, asOf string) *c24Live {
+	q := "SHOW CREATE TABLE c"
+	if asOf != "" {
+		q += " AS OF '" + asOf + "'"
+	}
+	r, err := s.Query(q)
+	if err != nil || len(r.Data) == 0 {
+		c.failf("cannot read the schema of c (%s): %v", asOf, err)
+	}
+	lv := &c24Live{checks: map[string]int{}, uniques: map[string][]int{}, raw: r.Data[0][1]}
+	pos := map[string]int{}
+	for i, n := range c24Cols {
+		pos[n] = i
+	}
+	for _, ln := range strings.Split(lv.raw, "\n")[1:] {
+		ln = strings.TrimSuffix(strings.TrimSpace(ln), ",")
+		switch {
+		case strings.HasPrefix(ln, "`"):
+			name := ln[1 : 1+strings.Index(ln[1:], "`")]
+			if i, ok := pos[name]; ok && strings.Contains(ln, "NOT NULL") {
+				lv.notNull[i] = true
+			}
+		case strings.Contains(ln, "FOREIGN KEY"):
+			lv.hasFK = true
+		default:
+			if m := c24ReCheck.FindStringSubmatch(ln); m != nil {
+				i, ok := c24Printed[m[2]]
+				if !ok {
+					c.failf("harness: unknown CHECK expression %q in %s", m[2], lv.raw)
+				}
+				lv.checks[m[1]] = i
+			} else if m := c24ReUniq.FindStringSubmatch(ln); m != nil {
+				var cols []int
+				for _, cm := range sxReIdxCol.FindAllStringSubmatch(m[2], -1) {
+					cols = append(cols, pos[cm[1]])
+				}
+				lv.uniques[m[1]] = cols
+			}
+		}
+	}
+	return lv
+}
+
+func (lv *c24Live) uniqNames() []string {
+	var ns []string
+	for n := range lv.uniques {
+		ns = append(ns, n)
+	}
+	sort.Strings(ns)
+	return ns
+}
+
+// uniqKeyOf returns the row's key in unique index name ("" when it contains NULL).
+func (lv *c24Live) uniqKeyOf(name string, r []string) string {
+	if r == nil {
+		return ""
+	}
+	var p []string
+	for _, i := range lv.uniques[name] {
+		if r[i] == vsql.Null {
+			return ""
+		}
+		p = append(p, r[i])
+	}
+	return name + ":" + strings.Join(p, "/")
+}
 
 func (s c24Schema) ddl() []string {
 	uq := "UNIQUE KEY uu (u)"
@@ -47,23 +200,7 @@ func (s c24Schema) ddl() []string {
 }
 
 // checkOK evaluates the CHECK with SQL semantics: the row passes unless the expression is FALSE.
-func (s c24Schema) checkOK(x, y string) bool {
-	if x == vsql.Null || y == vsql.Null {
-		return true
-	}
-	xv, _ := strconv.Atoi(x)
-	yv, _ := strconv.Atoi(y)
-	switch s.check {
-	case 0:
-		return xv < yv
-	case 1:
-		return xv <= yv
-	case 2:
-		return xv+yv <= 6
-	default:
-		return xv != yv
-	}
-}
+func (s c24Schema) checkOK(x, y string) bool { return c24EvalExpr(s.check, x, y) }
 
 // c24Snapshot is the content of both tables in one root.
 type c24Snapshot struct {
@@ -88,8 +225,9 @@ type c24Violation struct {
 	typ   string // "unique index", "foreign key", "check constraint", "not null", "primary key"
 }
 
-// evaluate is the independent constraint evaluator over plain table contents.
-func (s c24Schema) evaluate(sn *c24Snapshot) []c24Violation {
+// evaluate is the independent constraint evaluator over plain table contents, for the
+// constraint set lv of the root the contents were read from.
+func (lv *c24Live) evaluate(sn *c24Snapshot) []c24Violation {
 	var out []c24Violation
 	parents := map[string]bool{}
 	seen := map[string]bool{}
@@ -102,27 +240,36 @@ func (s c24Schema) evaluate(sn *c24Snapshot) []c24Violation {
 	}
 	seen = map[string]bool{}
 	groups := map[string][]string{}
+	var cnames []string
+	for n := range lv.checks {
+		cnames = append(cnames, n)
+	}
+	sort.Strings(cnames)
 	for _, r := range sn.C {
-		id, pid, u, u2, x, y := r[0], r[1], r[2], r[3], r[4], r[5]
+		id, pid, x, y := r[0], r[1], r[4], r[5]
 		if seen[id] || id == vsql.Null {
 			out = append(out, c24Violation{"c", id, "primary key"})
 		}
 		seen[id] = true
-		if x == vsql.Null {
-			out = append(out, c24Violation{"c", id, "not null"})
+		for i, nn := range lv.notNull {
+			if nn && r[i] == vsql.Null {
+				out = append(out, c24Violation{"c", id, "not null"})
+				break
+			}
 		}
-		if !s.checkOK(x, y) {
-			out = append(out, c24Violation{"c", id, "check constraint"})
+		for _, n := range cnames {
+			if !c24EvalExpr(lv.checks[n], x, y) {
+				out = append(out, c24Violation{"c", id, "check constraint"})
+				break
+			}
 		}
-		if pid != vsql.Null && !parents[pid] {
+		if lv.hasFK && pid != vsql.Null && !parents[pid] {
 			out = append(out, c24Violation{"c", id, "foreign key"})
 		}
-		if u != vsql.Null && (!s.uniq2 || u2 != vsql.Null) {
-			k := u
-			if s.uniq2 {
-				k = u + "/" + u2
+		for _, n := range lv.uniqNames() {
+			if k := lv.uniqKeyOf(n, r); k != "" {
+				groups[k] = append(groups[k], id)
 			}
-			groups[k] = append(groups[k], id)
 		}
 	}
 	var gk []string
@@ -130,10 +277,14 @@ func (s c24Schema) evaluate(sn *c24Snapshot) []c24Violation {
 		gk = append(gk, k)
 	}
 	sort.Strings(gk)
+	dup := map[string]bool{}
 	for _, k := range gk {
 		if len(groups[k]) > 1 {
 			for _, id := range groups[k] {
-				out = append(out, c24Violation{"c", id, "unique index"})
+				if !dup[id] {
+					dup[id] = true
+					out = append(out, c24Violation{"c", id, "unique index"})
+				}
 			}
 		}
 	}
@@ -144,12 +295,22 @@ func (s c24Schema) evaluate(sn *c24Snapshot) []c24Violation {
 // a unique value and gave that value to another row
 const c24FindingFalseUniq = "C24-merge-false-unique-violation-reused-key"
 
+// dolt_conflicts_resolve keeps/takes the rows of conflicting keys without validating them against
+// the CHECK constraints of the merged schema (only foreign keys are re-validated)
+const c24FindingResolveCheck = "C24-conflicts-resolve-no-check-validation"
+
 type c24State struct {
+	// ids of child rows that were data conflicts resolved by dolt_conflicts_resolve; while finding
+	// C24-conflicts-resolve-no-check-validation is open their unlisted CHECK violations are skipped
+	resolvedIDs          map[string]bool
+	tolerateResolveCheck bool
+
 	// set in the merge part while finding C24-merge-false-unique-violation-reused-key is open:
 	// the heads of the branch merged into (ours) and of the merged-in branch (theirs)
 	tolerateFalseUniq bool
 	ours, theirs      *c24Snapshot
 	excluded          int
+	curLive           *c24Live
 
 	rt     *rapid.T
 	srv    *vsql.Server
@@ -223,7 +384,9 @@ func (c *c24State) listed(s *vsql.Session, asOf string) (map[c24Violation][]stri
 // group at most one member may be unlisted), listed rows are real.
 func (c *c24State) checkRoot(s *vsql.Session, asOf, what string, allowListed bool) (nViol int) {
 	sn := c.snapshot(s, asOf)
-	real := c.sch.evaluate(sn)
+	lv := c.live(s, asOf)
+	c.curLive = lv
+	real := lv.evaluate(sn)
 	listed, nl := c.listed(s, asOf)
 	if nl > 0 && !allowListed {
 		c.failf("%s: dolt_constraint_violations lists %d rows although nothing was force-committed", what, nl)
@@ -231,6 +394,20 @@ func (c *c24State) checkRoot(s *vsql.Session, asOf, what string, allowListed boo
 	realSet := map[c24Violation]bool{}
 	for _, v := range real {
 		realSet[v] = true
+	}
+	// Rows that a merge could not store because of a NOT NULL column live in the violations
+	// table only; a violation dolt lists for another row against such a row (e.g. a shared
+	// unique value) counts as real: it becomes visible as soon as the user repairs the row.
+	phantom := &c24Snapshot{P: sn.P, C: append([][]string(nil), sn.C...)}
+	for v, row := range listed {
+		if v.table == "c" && v.typ == "not null" && c24RowByID(sn, v.id) == nil {
+			phantom.C = append(phantom.C, row)
+		}
+	}
+	if len(phantom.C) > len(sn.C) {
+		for _, v := range lv.evaluate(phantom) {
+			realSet[v] = true
+		}
 	}
 	// completeness
 	uniqUnlisted := map[string][]string{}
@@ -242,16 +419,20 @@ func (c *c24State) checkRoot(s *vsql.Session, asOf, what string, allowListed boo
 			// find the row's unique key to allow one unlisted member per group
 			for _, r := range sn.C {
 				if r[0] == v.id {
-					k := r[2]
-					if c.sch.uniq2 {
-						k += "/" + r[3]
+					for _, n := range lv.uniqNames() {
+						if k := lv.uniqKeyOf(n, r); k != "" {
+							uniqUnlisted[k] = append(uniqUnlisted[k], v.id)
+						}
 					}
-					uniqUnlisted[k] = append(uniqUnlisted[k], v.id)
 				}
 			}
 			continue
 		}
-		c.failf("%s: row %s.id=%s violates its %s constraint but is not listed in dolt_constraint_violations_%s\n  p: %s\n  c: %s\n  listed: %s", what, v.table, v.id, v.typ, v.table, sxShowRows(sxSortRows(sn.P)), sxShowRows(sxSortRows(sn.C)), c24ShowListed(listed))
+		if v.table == "c" && v.typ == "check constraint" && c.tolerateResolveCheck && c.resolvedIDs[v.id] {
+			c.excluded++
+			continue
+		}
+		c.failf("%s: row %s.id=%s violates its %s constraint but is not listed in dolt_constraint_violations_%s\n  p: %s\n  c: %s\n  listed: %s\n  schema of c in this root: %s", what, v.table, v.id, v.typ, v.table, sxShowRows(sxSortRows(sn.P)), sxShowRows(sxSortRows(sn.C)), c24ShowListed(listed), lv.raw)
 	}
 	var uk []string
 	for k := range uniqUnlisted {
@@ -270,7 +451,25 @@ func (c *c24State) checkRoot(s *vsql.Session, asOf, what string, allowListed boo
 	}
 	sort.Slice(lk, func(i, j int) bool { return fmt.Sprint(lk[i]) < fmt.Sprint(lk[j]) })
 	for _, v := range lk {
-		rows := sn.C
+		if v.table == "c" && v.typ == "not null" {
+			// dolt cannot store NULL in a NOT NULL column: the offending row is kept in the
+			// violations table only (recorded, not silently dropped). It is real if the listed
+			// values have a NULL in a column the root declares NOT NULL.
+			isReal := false
+			for i, nn := range lv.notNull {
+				if nn && listed[v][i] == vsql.Null {
+					isReal = true
+				}
+			}
+			if !isReal {
+				c.failf("%s: dolt_constraint_violations_c lists row %s as a not null violation, but none of its NOT NULL columns is NULL\n  schema: %s", what, sxShowRow(listed[v]), lv.raw)
+			}
+			if c24RowByID(sn, v.id) != nil {
+				c.failf("%s: row c.id=%s is listed as a not null violation and is also present in the table: %s", what, v.id, sxShowRows(sxSortRows(sn.C)))
+			}
+			continue
+		}
+		rows := phantom.C
 		if v.table == "p" {
 			rows = sn.P
 		}
@@ -293,16 +492,6 @@ func (c *c24State) checkRoot(s *vsql.Session, asOf, what string, allowListed boo
 	return len(real)
 }
 
-func (c *c24State) uniqKey(r []string) string {
-	if r == nil || r[2] == vsql.Null || (c.sch.uniq2 && r[3] == vsql.Null) {
-		return ""
-	}
-	if c.sch.uniq2 {
-		return r[2] + "/" + r[3]
-	}
-	return r[2]
-}
-
 func c24RowByID(sn *c24Snapshot, id string) []string {
 	for _, r := range sn.C {
 		if r[0] == id {
@@ -317,32 +506,35 @@ func c24RowByID(sn *c24Snapshot, id string) []string {
 // moved some row M away from unique key k (M has k in ours, another key in theirs) and another
 // row T holds k in theirs; dolt lists M and T. The listed row must be such an M or T.
 func (c *c24State) knownFalseUniq(v c24Violation, row []string) bool {
-	if !c.tolerateFalseUniq || v.table != "c" || v.typ != "unique index" || c.ours == nil || c.theirs == nil {
+	if !c.tolerateFalseUniq || v.table != "c" || v.typ != "unique index" || c.ours == nil || c.theirs == nil || c.curLive == nil {
 		return false
 	}
-	movers := map[string]string{} // id -> key it left
-	for _, o := range c.ours.C {
-		k := c.uniqKey(o)
-		t := c24RowByID(c.theirs, o[0])
-		if k != "" && t != nil && c.uniqKey(t) != k {
-			movers[o[0]] = k
-		}
-	}
+	lv := c.curLive
 	id := row[0]
-	// the listed row is a mover whose old key was taken by another row of theirs
-	if k, ok := movers[id]; ok {
-		for _, t := range c.theirs.C {
-			if t[0] != id && c.uniqKey(t) == k {
+	for _, n := range lv.uniqNames() {
+		movers := map[string]string{} // id -> key it left
+		for _, o := range c.ours.C {
+			k := lv.uniqKeyOf(n, o)
+			t := c24RowByID(c.theirs, o[0])
+			if k != "" && t != nil && lv.uniqKeyOf(n, t) != k {
+				movers[o[0]] = k
+			}
+		}
+		// the listed row is a mover whose old key was taken by another row of theirs
+		if k, ok := movers[id]; ok {
+			for _, t := range c.theirs.C {
+				if t[0] != id && lv.uniqKeyOf(n, t) == k {
+					c.excluded++
+					return true
+				}
+			}
+		}
+		// the listed row took the key a mover left
+		for mid, k := range movers {
+			if mid != id && lv.uniqKeyOf(n, row) == k {
 				c.excluded++
 				return true
 			}
-		}
-	}
-	// the listed row took the key a mover left
-	for mid, k := range movers {
-		if mid != id && c.uniqKey(row) == k {
-			c.excluded++
-			return true
 		}
 	}
 	return false
@@ -660,7 +852,7 @@ func c24CaseTxn(rt *rapid.T, srv *vsql.Server, admin *vsql.Session, rec *vh.Reco
 // ---------------------------------------------------------------------------------------
 // part merge
 
-func c24CaseMerge(rt *rapid.T, srv *vsql.Server, admin *vsql.Session, rec *vh.Recorder, falseUniqOpen bool) {
+func c24CaseMerge(rt *rapid.T, srv *vsql.Server, admin *vsql.Session, rec *vh.Recorder, falseUniqOpen, resolveCheckOpen bool) {
 	db := srv.NewDBName()
 	admin.MustExec(rt, "CREATE DATABASE "+db)
 	defer admin.Exec("DROP DATABASE " + db)
@@ -674,7 +866,86 @@ func c24CaseMerge(rt *rapid.T, srv *vsql.Server, admin *vsql.Session, rec *vh.Re
 	if rapid.IntRange(0, 4).Draw(rt, "prelude") != 0 {
 		name, a, b = c.prelude(base, "pre")
 	}
+	// constraint DDL on one side only: the other side keeps writing rows that are legal under
+	// the definitions it knows
+	ddlSide := rapid.SampledFrom([]string{"", "main", "br", "main", "br"}).Draw(rt, "ddl.side")
+	ddlKind := ""
+	var ddl, counter []string // DDL of the ddl side; statements for the other side aimed at the new constraint
+	if ddlSide != "" {
+		ddlKind = rapid.SampledFrom([]string{"redefine_check", "redefine_check", "redefine_check", "add_check", "add_check", "add_unique", "not_null"}).Draw(rt, "ddl.kind")
+		freeID := func(k int) int { // ids the base does not use, from the top
+			used := map[string]bool{}
+			for _, r := range base.C {
+				used[r[0]] = true
+			}
+			for i := 9; i >= 0; i-- {
+				if !used[strconv.Itoa(i)] {
+					if k == 0 {
+						return i
+					}
+					k--
+				}
+			}
+			return 9
+		}
+		switch ddlKind {
+		case "redefine_check", "add_check":
+			ne := rapid.IntRange(0, len(c24Checks)-1).Draw(rt, "ddl.expr")
+			if ddlKind == "redefine_check" {
+				if ne == c.sch.check {
+					ne = (ne + 1) % len(c24Checks)
+				}
+				ddl = []string{"ALTER TABLE c DROP CONSTRAINT ck1", fmt.Sprintf("ALTER TABLE c ADD CONSTRAINT ck1 CHECK (%s)", c24Checks[ne])}
+			} else {
+				ddl = []string{fmt.Sprintf("ALTER TABLE c ADD CONSTRAINT ck2 CHECK (%s)", c24Checks[ne])}
+			}
+			// rows legal under the base definition and illegal under the new one: an insert and an update
+			var cand [][2]int
+			for x := 0; x <= 4; x++ {
+				for y := 1; y <= 6; y++ {
+					if c.sch.checkOK(strconv.Itoa(x), strconv.Itoa(y)) && !c24EvalExpr(ne, strconv.Itoa(x), strconv.Itoa(y)) {
+						cand = append(cand, [2]int{x, y})
+					}
+				}
+			}
+			if len(cand) > 0 {
+				xy := cand[rapid.IntRange(0, len(cand)-1).Draw(rt, "ddl.xy")]
+				counter = append(counter, fmt.Sprintf("INSERT INTO c (id, pid, u, u2, x, y) VALUES (%d, NULL, NULL, 0, %d, %d)", freeID(0), xy[0], xy[1]))
+				if len(base.C) > 0 && rapid.IntRange(0, 1).Draw(rt, "ddl.upd") == 0 {
+					r := sxSortRows(base.C)[0]
+					counter = append(counter, fmt.Sprintf("UPDATE c SET x = %d, y = %d WHERE id = %s", xy[0], xy[1], r[0]))
+				}
+			}
+		case "add_unique":
+			col := rapid.SampledFrom([]string{"y", "x, u2"}).Draw(rt, "ddl.ucols")
+			ddl = []string{fmt.Sprintf("ALTER TABLE c ADD UNIQUE KEY uy (%s)", col)}
+			if len(base.C) > 0 {
+				r := sxSortRows(base.C)[0]
+				counter = append(counter, fmt.Sprintf("INSERT INTO c (id, pid, u, u2, x, y) VALUES (%d, NULL, NULL, %s, %s, %s)", freeID(0), strings.ReplaceAll(r[3], vsql.Null, "NULL"), r[4], strings.ReplaceAll(r[5], vsql.Null, "NULL")))
+			}
+		case "not_null":
+			col := rapid.SampledFrom([]string{"y", "u", "pid"}).Draw(rt, "ddl.nncol")
+			ddl = []string{fmt.Sprintf("ALTER TABLE c MODIFY COLUMN %s INT NOT NULL", col)}
+			vals := map[string]string{"pid": "0", "u": "3", "y": "6"}
+			vals[col] = "NULL"
+			counter = append(counter, fmt.Sprintf("INSERT INTO c (id, pid, u, u2, x, y) VALUES (%d, %s, %s, 1, 0, %s)", freeID(0), vals["pid"], vals["u"], vals["y"]))
+		}
+	}
+	ddlApplied := false
 	edit := func(label, first string) {
+		if label == ddlSide {
+			ok := true
+			for _, q := range ddl {
+				if err := c.run(s, q); err != nil {
+					ok = false
+				}
+			}
+			ddlApplied = ok
+		} else if ddlSide != "" {
+			for _, q := range counter {
+				_ = c.run(s, q)
+			}
+		}
 		if first != "" {
 			_ = c.run(s, first)
 		}
@@ -717,15 +988,38 @@ func c24CaseMerge(rt *rapid.T, srv *vsql.Server, admin *vsql.Session, rec *vh.Re
 	if c.sch.uniq2 {
 		cl = append(cl, "unique_multi_column")
 	}
+	if ddlSide != "" {
+		side := "theirs"
+		if ddlSide == onto {
+			side = "ours"
+		}
+		if ddlApplied {
+			cl = append(cl, "ddl="+ddlKind, "ddl_on_"+side)
+		} else {
+			cl = append(cl, "ddl_refused_on_branch")
+		}
+	}
 	if err != nil {
 		// refused merge (e.g. nothing to cherry-pick): nothing may have changed
 		c.checkRoot(s, "", "after refused "+kind, false)
 		rec.Case(strings.Join(c.ops, " ; "), false, append(cl, "merge_refused")...)
 		return
 	}
+	if sc, err := s.Query("SELECT COUNT(*) FROM dolt_schema_conflicts"); err == nil && len(sc.Data) > 0 && sc.Data[0][0] != "0" {
+		// a schema conflict leaves the decision to the user: nothing to evaluate yet
+		rec.Case(strings.Join(c.ops, " ; "), false, append(cl, "schema_conflict")...)
+		return
+	}
 	if n, _ := s.Scalar(rt, "SELECT COALESCE(SUM(num_conflicts),0) FROM dolt_conflicts"); n != "0" {
 		// data conflicts: the rows of the conflicting keys are still being decided by the user;
 		// constraints are evaluated once they are resolved
+		c.resolvedIDs = map[string]bool{}
+		if cr, err := s.Query("SELECT COALESCE(our_id, their_id, base_id) FROM dolt_conflicts_c"); err == nil {
+			for _, r := range cr.Data {
+				c.resolvedIDs[r[0]] = true
+			}
+		}
+		c.tolerateResolveCheck = resolveCheckOpen
 		_ = c.run(s, "CALL dolt_conflicts_resolve('--ours', 'p')")
 		_ = c.run(s, "CALL dolt_conflicts_resolve('--ours', 'c')")
 		cl = append(cl, "data_conflicts_resolved_ours")
@@ -757,9 +1051,43 @@ func c24CaseMerge(rt *rapid.T, srv *vsql.Server, admin *vsql.Session, rec *vh.Re
 	}
 	if c.excluded > 0 {
 		rec.Excluded(c.excluded)
-		cl = append(cl, "false_unique_excluded_known")
+		cl = append(cl, "excluded_known_shape")
 	}
 	rec.Case(strings.Join(c.ops, " ; "), nviol > 0, cl...)
+}
+
+// c24PinnedResolveCheck is the reproduction of finding C24-conflicts-resolve-no-check-validation.
+func c24PinnedResolveCheck(t *testing.T, srv *vsql.Server, admin *vsql.Session) string {
+	db := srv.NewDBName()
+	admin.MustExec(t, "CREATE DATABASE "+db)
+	defer admin.Exec("DROP DATABASE " + db)
+	s := srv.Session(t, "pin", db)
+	defer s.Close()
+	for _, q := range []string{
+		"CREATE TABLE c (id INT PRIMARY KEY, x INT, CONSTRAINT ck1 CHECK (x < 10))",
+		"INSERT INTO c VALUES (1,1)",
+		"CALL dolt_commit('-Am','base')",
+		"CALL dolt_branch('br')",
+		"ALTER TABLE c DROP CONSTRAINT ck1",
+		"ALTER TABLE c ADD CONSTRAINT ck1 CHECK (x < 3)",
+		"UPDATE c SET x = 2 WHERE id = 1",
+		"CALL dolt_commit('-Am','main')",
+		"CALL dolt_checkout('br')",
+		"UPDATE c SET x = 5 WHERE id = 1",
+		"CALL dolt_commit('-Am','br')",
+		"SET @@dolt_allow_commit_conflicts = 1",
+		"CALL dolt_merge('main')",
+		"CALL dolt_conflicts_resolve('--ours', 'c')",
+	} {
+		s.MustExec(t, q)
+	}
+	x, _ := s.Scalar(t, "SELECT x FROM c WHERE id = 1")
+	nv, _ := s.Scalar(t, "SELECT COALESCE(SUM(num_violations),0) FROM dolt_constraint_violations")
+	cerr := s.Exec("CALL dolt_commit('-Am','merged')")
+	if x == "5" && nv == "0" && cerr == nil {
+		return "main redefines ck1 as CHECK (x < 3), br sets x = 5 in the same row; merge main into br, dolt_conflicts_resolve('--ours','c'): the row keeps x = 5 under CHECK (x < 3), no violation is recorded and the merge commit is accepted"
+	}
+	return ""
 }
 
 // c24PinnedFalseUniq is the reproduction of finding C24-merge-false-unique-violation-reused-key.
@@ -800,6 +1128,9 @@ func TestVerif_C24(t *testing.T) {
 		"for a group of rows sharing a unique key at most one member may be unlisted (dolt lists all of them)",
 		"merges that end with unresolved data conflicts are not evaluated (rows still undecided); conflicts are resolved with --ours first",
 		"CHECK passes when its expression is TRUE or NULL; UNIQUE ignores keys containing NULL",
+		"a row a merge would have to store with NULL in a NOT NULL column is expected in dolt_constraint_violations_<t> only (dolt does not keep it in the table); every other listed row must be present in the table with the listed values; violations listed for other rows against such a row (shared unique value) count as real",
+		"the constraint set of a root is read from its SHOW CREATE TABLE (names, columns, NOT NULL flags, presence of the FK); a CHECK expression is mapped to the harness' own expression through the text dolt prints for it (calibrated at start); merges that leave a schema conflict are not evaluated",
+		"while finding "+c24FindingResolveCheck+" is listed open, an unlisted CHECK violation of a row that was a data conflict resolved by dolt_conflicts_resolve is skipped (counted excluded_known)",
 		"while finding "+c24FindingFalseUniq+" is listed open, a falsely listed unique-index violation is skipped (counted excluded_known) when it is the row that the merged-in branch moved away from a unique value or the row that took that value",
 	}
 	recT := vh.NewRecorder("C24", "txn", "exploration", c24Rule, assume...)
@@ -809,6 +1140,7 @@ func TestVerif_C24(t *testing.T) {
 	srv, stop := sxStart(t, "c24")
 	defer stop()
 	admin := srv.Session(t, "admin", "")
+	c24Calibrate(t, srv, admin)
 	vh.Check(t, "txn", 160, 500, func(rt *rapid.T) { c24CaseTxn(rt, srv, admin, recT) })
 	openFU := vh.OpenFinding("C24", c24FindingFalseUniq)
 	t.Run("pinned_false_unique_violation", func(t *testing.T) {
@@ -821,5 +1153,16 @@ func TestVerif_C24(t *testing.T) {
 			t.Errorf("%s", msg)
 		}
 	})
-	vh.Check(t, "merge", 160, 500, func(rt *rapid.T) { c24CaseMerge(rt, srv, admin, recM, openFU) })
+	openRC := vh.OpenFinding("C24", c24FindingResolveCheck)
+	t.Run("pinned_conflicts_resolve_check", func(t *testing.T) {
+		if msg := c24PinnedResolveCheck(t, srv, admin); msg != "" {
+			if openRC {
+				vh.ReportKnown("C24", c24FindingResolveCheck, msg)
+				return
+			}
+			vh.NoteViolation(t.Name(), "", `{"sql":"see c24PinnedResolveCheck","observed":"`+strings.ReplaceAll(msg, `"`, `'`)+`"}`)
+			t.Errorf("%s", msg)
+		}
+	})
+	vh.Check(t, "merge", 160, 500, func(rt *rapid.T) { c24CaseMerge(rt, srv, admin, recM, openFU, openRC) })
 }
